@@ -154,6 +154,8 @@ def struct_stages(tier, seg_depth_q=1, seg_depth_t=2, extra_kinds=()):
              depth=1 if q else 2, kinds=kinds),
         dict(name="reloaded", worlds=["noseg-2d-reloaded", "seg-2d-reloaded"], seeds=["div", "two", "desc"],
              depth=1 if q else 2, kinds=kinds),
+        dict(name="imported", worlds=["noseg-2d-csv", "noseg-2d-geff", "seg-2d-geff"], seeds=["div", "two", "skip"],
+             depth=1 if q else 2, kinds=kinds + ("add_node",)),
         dict(name="big-ids", worlds=["noseg-2d-bigids", "seg-2d-bigids"], seeds=["bigdiv"], depth=1 if q else 2, kinds=kinds),
         dict(name="ids-from-6", worlds=["noseg-2d", "seg-2d"], seeds=["skip8"], depth=1 if q else 2, kinds=kinds + ("add_node",)),
         dict(name="nested-divisions", worlds=["noseg-2d", "noseg-2d-given", "seg-2d"], seeds=["nested"], depth=1 if q else 2,
@@ -236,6 +238,8 @@ def check_c01(tier):
         dict(name="forests", worlds=["noseg-2d"], seeds=forests_seeds(4 if q else 5, 3 if q else 4), depth=1, kinds=kinds),
         dict(name="nested-divisions", worlds=["noseg-2d", "seg-2d"], seeds=["nested"], depth=1 if q else 2,
              kinds=kinds + ("paint",), max_states=None if q else 1500),
+        dict(name="imported", worlds=["noseg-2d-csv", "noseg-2d-geff", "seg-2d-geff"], seeds=["div", "two", "skip"],
+             depth=1 if q else 2, kinds=kinds + ("paint",)),
         dict(name="seg-bfs", worlds=["seg-2d", "seg-2d-aniso"] if q else ["seg-2d", "seg-2d-aniso", "seg-2d-all", "seg-3d", "seg-3d-aniso", "seg-2d-fd"],
              seeds=HAND_SEEDS + ["twodiv"], depth=1 if q else 2, kinds=kinds + ("paint",)),
     ]
@@ -286,7 +290,7 @@ def check_c07(tier):
              max_states=None if q else 6000),
         dict(name="seg2d-iou", worlds=["seg-2d"], seeds=HAND_SEEDS + ["fix6"], depth=1 if q else 2, kinds=SEG_KINDS),
         dict(name="seg3d-bfs", worlds=["seg-3d"], seeds=HAND_SEEDS, depth=1 if q else 2, kinds=SEG_KINDS),
-        dict(name="scaled", worlds=["seg-2d-aniso", "seg-2d-all"] if q else ["seg-2d-aniso", "seg-2d-all", "seg-3d-aniso"],
+        dict(name="scaled", worlds=["seg-2d-aniso", "seg-2d-all", "seg-2d-geff"] if q else ["seg-2d-aniso", "seg-2d-all", "seg-3d-aniso", "seg-2d-geff"],
              seeds=HAND_SEEDS + ["twodiv"], depth=1 if q else 2, kinds=SEG_KINDS),
     ]
     stages.append(dict(name="258-frame movie", worlds=["seg-2d-tall"], seeds=["tall"], depth=1, kinds=("del_node", "add_edge", "paint")))
@@ -304,7 +308,7 @@ def check_c08(tier):
     mask_kinds = ("del_node", "add_node", "paint", "add_edge")
     stages = [
         dict(name="core-bfs", worlds=["seg-2d-core"], seeds=HAND_SEEDS, depth=2, kinds=mask_kinds if q else SEG_KINDS),
-        dict(name="scales-2d", worlds=["seg-2d-aniso", "seg-2d-iso", "seg-2d-all", "seg-2d-aniso-ell", "seg-2d-fd-loc"], seeds=HAND_SEEDS,
+        dict(name="scales-2d", worlds=["seg-2d-aniso", "seg-2d-iso", "seg-2d-all", "seg-2d-aniso-ell", "seg-2d-fd-loc", "seg-2d-geff"], seeds=HAND_SEEDS,
              depth=1 if q else 2, kinds=SEG_KINDS),
         dict(name="3d", worlds=["seg-3d-aniso"] if q else ["seg-3d", "seg-3d-aniso", "seg-3d-all"], seeds=HAND_SEEDS,
              depth=1 if q else 2, kinds=mask_kinds if q else SEG_KINDS),
@@ -329,7 +333,7 @@ def check_c09(tier):
     q = tier == "quick"
     stages = [
         dict(name="seg2d-bfs", worlds=["seg-2d"], seeds=HAND_SEEDS, depth=2, kinds=SEG_KINDS if not q else ("del_node", "add_node", "paint", "add_edge", "del_edge")),
-        dict(name="aniso-given", worlds=["seg-2d-aniso", "seg-2d-fd"], seeds=HAND_SEEDS + ["fix6"], depth=1 if q else 2, kinds=SEG_KINDS),
+        dict(name="aniso-given", worlds=["seg-2d-aniso", "seg-2d-fd", "seg-2d-geff"], seeds=HAND_SEEDS + ["fix6"], depth=1 if q else 2, kinds=SEG_KINDS),
         dict(name="3d", worlds=["seg-3d"], seeds=HAND_SEEDS, depth=1 if q else 2, kinds=SEG_KINDS),
         dict(name="uint8-labels", worlds=["seg-2d-u8"], seeds=["u8ids", "div"], depth=1 if q else 2, kinds=SEG_KINDS),
         dict(name="wide-ids", worlds=["seg-2d", "seg-2d-bigids"], seeds=["u32ids", "bigdiv"], depth=1 if q else 2, kinds=SEG_KINDS,
